@@ -193,6 +193,7 @@ Inductive berror :=
 | ENoRules                         (* "The grammar must have at least one rule." *)
 | EDupTerminal (n : string)        (* "Terminal '..' is defined more than once." *)
 | EReservedRule (n : string)       (* "'..' is a reserved name and can't be used for a rule." *)
+| EReservedRef (n : string)        (* "'..' is a reserved name and can't be referenced in production ..." *)
 | ERuleTerminal (n : string)       (* "'..' is defined both as a rule and as a terminal." *)
 | EGroup                           (* "Parenthesized groups are not implemented." *)
 | EModifiers                       (* "Only a single separator modifier is supported." *)
@@ -585,6 +586,8 @@ Section Builder.
         match sm_get n terms with
         | Some t => ROk (td_idx t)
         | None =>
+            (* the augmented non-terminals are internal (builder.rs resolve_references, /repo 2d9436f) *)
+            if existsb (String.eqb n) ["AUG"; "AUGL"]%string then RErr (EReservedRef n) else
             match sm_get n nts with
             | None => RErr (EUnexisting n)
             | Some nt =>
@@ -859,6 +862,7 @@ Definition error_line (e : berror) : string :=
   | ENoRules => "ERROR no-rules"
   | EDupTerminal n => String.append "ERROR duplicate-terminal " n
   | EReservedRule n => String.append "ERROR reserved-rule-name " n
+  | EReservedRef n => String.append "ERROR reserved-reference " n
   | ERuleTerminal n => String.append "ERROR rule-and-terminal " n
   | EGroup => "ERROR groups"
   | EModifiers => "ERROR modifiers"
